@@ -233,7 +233,7 @@ func check(prop, tier, only, repoDir, verifDir string, workers, par, seed int, d
 					reproduced[ob.Label] = true
 					kfound := false
 					for _, f := range kf.Findings {
-						if f.Property == prop && f.Harness == hr.Spec.Name && labelMatch(f.Label, ob.Label) {
+						if f.Property == prop && labelMatch(f.Harness, hr.Spec.Name) && labelMatch(f.Label, ob.Label) {
 							kfound = true
 							nKnown++
 							if !knownSeen[f.ID] {
@@ -307,7 +307,7 @@ func check(prop, tier, only, repoDir, verifDir string, workers, par, seed int, d
 		if f.Property == prop && !knownSeen[f.ID] {
 			relevant := false
 			for _, hr := range results {
-				if hr.Spec.Name == f.Harness {
+				if labelMatch(f.Harness, hr.Spec.Name) {
 					relevant = true
 				}
 			}
